@@ -119,15 +119,18 @@ class EndpointsEmitter:
         Args:
             operations: List of all operations across all tags.
         """
-        seen_methods: dict[str, int] = {}
+        used_methods: set[str] = set()
         for op in operations:
             method_name = NameSanitizer.sanitize_method_name(op.operation_id)
-            if method_name in seen_methods:
-                seen_methods[method_name] += 1
-                new_op_id = f"{op.operation_id}_{seen_methods[method_name]}"
-                op.operation_id = new_op_id
-            else:
-                seen_methods[method_name] = 1
+            if method_name in used_methods:
+                # Take the first free suffix: "_2", "_3", ... The suffixed name may itself be taken
+                # already (e.g. ids foo, foo, foo_2), so check the resulting method name, not a counter.
+                suffix = 2
+                while NameSanitizer.sanitize_method_name(f"{op.operation_id}_{suffix}") in used_methods:
+                    suffix += 1
+                op.operation_id = f"{op.operation_id}_{suffix}"
+                method_name = NameSanitizer.sanitize_method_name(op.operation_id)
+            used_methods.add(method_name)
 
     def emit(self, operations: List[IROperation], output_dir_str: str) -> List[str]:
         """Render endpoint client files per tag under <output_dir>/endpoints.
